@@ -119,12 +119,12 @@ def run(ctx):
     # ---------------------------------------------------------------- the specifications
     # TLC workers of the model runs: JVM slots are shared machine-wide and a multi-worker run needs five
     # of them at once, which starves when many checks run; the quick models are small enough for one worker
-    W = 1 if quick else 8
+    W = 1 if quick else 8   # only for the one large model (MC_Resolution_thorough, 1.4e6 states)
     pool = cf.ThreadPoolExecutor(max_workers=8)   # independent TLC runs (models and generators) side by side
-    models = [pool.submit(ctx.model, "MC_Chaining", "MC_Chaining_quick.cfg" if quick else "MC_Chaining_thorough.cfg", workers=W),
+    models = [pool.submit(ctx.model, "MC_Chaining", "MC_Chaining_quick.cfg" if quick else "MC_Chaining_thorough.cfg", workers=1),
               pool.submit(ctx.model, "MC_Resolution", "MC_Resolution_quick.cfg" if quick else "MC_Resolution_thorough.cfg", workers=W),
-              pool.submit(ctx.model, "MC_Resolution", "MC_Resolution_cache.cfg", workers=W),
-              pool.submit(ctx.model, "MC_Resolution", "MC_Resolution_live.cfg" if quick else "MC_Resolution_live2.cfg", workers=W)]
+              pool.submit(ctx.model, "MC_Resolution", "MC_Resolution_cache.cfg", workers=1),
+              pool.submit(ctx.model, "MC_Resolution", "MC_Resolution_live.cfg" if quick else "MC_Resolution_live2.cfg", workers=1)]
 
     # ---------------------------------------------------------------- Chaining on the code
     gens = []
